@@ -154,8 +154,10 @@ def gen_world(r: Stream, *, n_agents: Optional[int] = None, max_graphs: int = 3,
     for ei in range(r.randint(0, max_eps)):
         words = r.sample(VOCAB, r.randint(1, 4))
         text = " ".join(words)
-        age_days = r.choice([0, 0, 1, 5, 29, 30, 31, 90, 400])
-        ts_ms = T0_MS - age_days * 86_400_000 - r.randint(0, 3_600_000)
+        # ages on and just inside the edges of the recency windows the configs use (1, 30, 365 days), so that a few
+        # hours of logical time move an episode across a window edge
+        age_days = r.choice([0, 0, 1, 5, 29, 30, 31, 90, 400, 0.6, 0.95, 29.6, 29.95, 364.7])
+        ts_ms = T0_MS - int(age_days * 86_400_000) - r.randint(0, 3_600_000)
         ts: Any = iso_from_ms(ts_ms).replace("+00:00", "Z")
         if bad_ts and r.chance(0.2):
             ts = r.choice(["", "garbled", None])
